@@ -89,6 +89,13 @@ def table_run(pid, module, sub, tier, seed, wd, prefixes, sig, need=None, binp=N
     if rc != 0 and lib_crash(out):
         # the harness process was killed by a panic inside a goroutine of zitadel/oidc itself: real-code behaviour, not a harness failure
         fn = lib_crash(out)
+        if any(p.startswith("C20") for p in prefixes) and re.search(r"fatal error: concurrent map", out):
+            # the Go runtime itself caught unsynchronised access to a map inside library code (not recoverable): a data race
+            log(f"[{pid}] {label}: the process was killed by 'fatal error: concurrent map ...' in {fn}")
+            viols = [dict(rule="C20.racefree:processCrash", id=0, case={}, observed=dict(crash=fn, output=out[-1500:]), module=module,
+                          signature=f"C20.racefree:processCrash:{fn}")]
+            return dict(design=dict(module=module, cfg=f"{module}Design_{tier}.cfg", states=d["distinct"], transitions=d["generated"], wall=round(d["wall"], 1)),
+                        cases=n, viols=viols, divergences=[], divergences_total=0, coverage={}, samples=[], crashed=True)
         hargs = ["-seed", str(seed), "-tier", tier] + list(harness_args)
         culprits, cout = crash_isolate(binp, sub, module, wd, hargs, env, fn)
         if culprits is None or not any(p.startswith("C09") for p in prefixes):
@@ -509,7 +516,7 @@ def c20_check(pid, tier, seed, replay=None):
                         "observations of the Go race detector (a race needing a schedule it never sees is missed) - DESIGN.md §4",
                         "the *oauth2.Config handed to NewRelyingPartyOAuth and option arguments consumed at construction are not treated as caller-owned cells"])
         cov = tb["coverage"]
-        if not cov.get("seq") or not cov.get("conc"):
+        if not tb.get("crashed") and (not cov.get("seq") or not cov.get("conc")):
             raise Inconclusive("vacuous: no sequential or no concurrent program ran")
         return 1 if new else 0
     finally:
